@@ -1132,7 +1132,38 @@ func ruleC06Snapstep(c *Ctx) {
 	}
 	// ... and before a coalesce is planned: a hole still queued for the parent was right when it was
 	// queued; punched after the fold it erases the newer data the fold copied there
+	// (the drain stands in the server's entry point, which every caller of a served replica goes
+	// through - REST handler and snapshot cleaner -, or in the replica-level function itself)
+	replicaLevel := false
 	if fn := c.Anchor(rule, fRep+"PrepareRemoveDisk"); fn != nil {
+		R := NewRenderer(fn)
+		eachInstr(fn, func(in ssa.Instruction) {
+			if cl, ok := in.(*ssa.Call); ok && cl.Call.StaticCallee() == nil && !cl.Call.IsInvoke() && R.V(cl.Call.Value) == "$0.holeDrainer" {
+				replicaLevel = true
+			}
+		})
+	}
+	if fn := c.Anchor(rule, fSrv+"PrepareRemoveDisk"); fn != nil && !replicaLevel {
+		R := NewRenderer(fn)
+		sites := CallsTo(fn, fRep+"PrepareRemoveDisk")
+		if len(sites) == 0 {
+			c.Undecided(rule, FnName(fn)+" | plans the coalesce", c.P.Pos(fn.Pos()), "no call of the replica's PrepareRemoveDisk found")
+		}
+		c.Guard(rule, fn, sites, "plan the coalesce", nil, Need{Desc: "hole queue drained (s.r.holeDrainer())", Instr: func(in ssa.Instruction) bool {
+			cl, ok := in.(*ssa.Call)
+			return ok && cl.Call.StaticCallee() == nil && !cl.Call.IsInvoke() && R.V(cl.Call.Value) == "$0.r.holeDrainer"
+		}})
+		// only the server's entry point may plan a removal for a served replica
+		for _, f := range c.P.AllFns {
+			if f == fn || strings.Contains(FnName(f), "tests/functional") || strings.HasSuffix(c.P.Pos(f.Pos()), "_test.go") {
+				continue
+			}
+			for _, s := range CallsTo(f, fRep+"PrepareRemoveDisk") {
+				c.Bad(rule, FnName(f)+" | plans a coalesce without the server's drain", c.P.InstrPos(s), "Replica.PrepareRemoveDisk is called outside Server.PrepareRemoveDisk, which drains the hole queue first", nil)
+			}
+		}
+	}
+	if fn := c.Anchor(rule, fRep+"PrepareRemoveDisk"); fn != nil && replicaLevel {
 		R := NewRenderer(fn)
 		sites := CallsTo(fn, fRep+"processPrepareRemoveDisks")
 		if len(sites) == 0 {
